@@ -1,5 +1,5 @@
 CONSTANTS AsWritten = FALSE
-  MCMaxScript = 3
+  MCMaxScript = 4
   MCEntries = {"dialerr", "closeBefore", "closePartial", "stall", "ok", "okStale", "s502", "r302path", "r301relStale", "r303queryLive", "r307abs", "r302none"}
   MCApis = {"do", "reqtimeout", "redirects"}
   MCRetryIfs = {"default", "always", "err", "s5xx", "cancel"}
